@@ -51,12 +51,27 @@ where
         }
     }
 
+    let mut closed = false;
     let unicode_seq: String = chars
-        .take_while(|&(_, c)| c != '}')
+        .take_while(|&(_, c)| {
+            closed = c == '}';
+            !closed
+        })
         .map(|(_, c)| c)
         .collect();
 
-    u32::from_str_radix(&unicode_seq, 16)
+    if !closed {
+        return Err(ParseUnicodeError::BraceNotFound);
+    }
+
+    // from_str_radix accepts a leading '+', which is not a hex digit
+    let digits = if unicode_seq.starts_with('+') {
+        "+"
+    } else {
+        &unicode_seq
+    };
+
+    u32::from_str_radix(digits, 16)
         .map_err(|e| ParseUnicodeError::ParseHexFailed {
             source: e,
             string: unicode_seq,
